@@ -16,7 +16,7 @@ class IterBoom(Exception):
 
 
 def h_fail(n: int, j: int, k1: int, k2: int, k3: int, k4: int, limit: int, probe: int, silent: bool,
-           kind='iterraise', numtype='int32', bo='little', atom=(), F=2, viaappend=False,
+           kind='iterraise', numtype='int32', bo='little', atom=(), F=2, viaappend=False, ctx=False,
            _gate=None, _small=False):
     """iterappend of up to F chunks where something goes wrong at position j (0-based):
     kinds iterraise | wrongatom | wrongrank | unconvertible | limit (write refusal at byte `limit`)."""
@@ -25,8 +25,9 @@ def h_fail(n: int, j: int, k1: int, k2: int, k3: int, k4: int, limit: int, probe
     for k in ks:
         assume(0 <= k <= BIG)
     for k in [k1, k2, k3, k4][F:]:
-        assume(k == 0)
-    small(_small, n, *ks)
+        if not ctx:
+            assume(k == 0)
+    small(_small, n, k4, *ks)
     rb = symnp._prod(atom) * ITEMSIZE[numtype]
     w = new_world()
     a = open_rw(w, n, numtype, bo, atom)
@@ -90,21 +91,36 @@ def h_fail(n: int, j: int, k1: int, k2: int, k3: int, k4: int, limit: int, probe
             yield chunks[i]
         if kind == 'iterraise' and j == F:
             raise IterBoom('boom at end')
-    try:
-        if viaappend:
-            assume(j == 0 or kind == 'limit')
-            a.append(chunks[0] if kind == 'limit' else next(gen()))
-        else:
-            a.iterappend(gen())
-        raised = None
-    except IterBoom as e:
-        raised = e
-    except Exception as e:
-        raised = e
+    k0 = 0
+    r0 = Seq()
+
+    def run():
+        try:
+            if viaappend:
+                assume(j == 0 or kind == 'limit')
+                a.append(chunks[0] if kind == 'limit' else next(gen()))
+            else:
+                a.iterappend(gen())
+            return None
+        except IterBoom as e:
+            return e
+        except Exception as e:
+            return e
+    if ctx:
+        # inside an open_array() context, after a SUCCESSFUL append under the same (now stale) shared map
+        assume(kind != 'limit' and F <= 3 and n >= 1)
+        k0 = k4
+        assume(0 <= k0 <= BIG)
+        c0, r0 = mk_input('same', k0, atom, numtype, bo, 9)
+        with a.open_array():
+            a.append(c0)
+            raised = run()
+    else:
+        raised = run()
     if raised is None:
         raise Violation('the failing append did not raise')
-    ref = Seq.of(('orig',), n)
-    total = n
+    ref = Seq.of(('orig',), n).concat(r0)
+    total = n + k0
     for i in range(F):
         if i < done:
             ref = ref.concat(refs[i])
@@ -161,17 +177,27 @@ if kind == 'limit':
     lim = spec['limit_bytes']
     resource.setrlimit(resource.RLIMIT_FSIZE, (lim, resource.getrlimit(resource.RLIMIT_FSIZE)[1]))
 out = {}
-try:
-    if spec.get('viaappend'):
-        a.append(chunks[0] if kind == 'limit' else next(gen()))
-    else:
-        a.iterappend(gen())
-    out['raised'] = None
-except BaseException as e:
-    out['raised'] = type(e).__name__
+c0 = vals(spec.get('k0', 0), 9000, CROW)
+def run():
+    try:
+        if spec.get('viaappend'):
+            a.append(chunks[0] if kind == 'limit' else next(gen()))
+        else:
+            a.iterappend(gen())
+        out['raised'] = None
+    except BaseException as e:
+        out['raised'] = type(e).__name__
+if spec.get('ctx'):
+    with a.open_array():
+        a.append(c0)
+        run()
+else:
+    run()
 if kind == 'limit':
     resource.setrlimit(resource.RLIMIT_FSIZE, (resource.RLIM_INFINITY, resource.getrlimit(resource.RLIMIT_FSIZE)[1]))
 model = orig
+if spec.get('ctx'):
+    model = np.concatenate([model, c0], axis=0)
 for i in range(spec['done']):
     model = np.concatenate([model, chunks[i].astype(orig.dtype)], axis=0)
 try:
@@ -210,7 +236,8 @@ def replay_fail(cex, d):
     done = int(fx['j'])
     silent = bool(fx.get('silent'))
     spec = dict(n=n, ks=ks, atom=atom, numtype=numtype, bo=fx.get('bo', 'little'), kind=kind,
-                j=int(fx['j']), rowscale=1, done=done, viaappend=bool(fx.get('viaappend')))
+                j=int(fx['j']), rowscale=1, done=done, viaappend=bool(fx.get('viaappend')),
+                ctx=bool(fx.get('ctx')), k0=int(fx.get('k4', 0)) if fx.get('ctx') else 0)
     if kind == 'limit':
         # scale rows so that the limit lies above the size of README / JSON files
         rowscale = max(1, (32768 + rb - 1) // rb) if not silent else 1    # silent short writes need SMALL chunks
@@ -271,6 +298,8 @@ def obligations(tier):
             splits.append(dict(kind=kind, numtype=nt, bo=bo, atom=at, F=F))
         if kind in ('limit', 'wrongatom'):
             splits.append(dict(kind=kind, numtype='int32', bo='little', atom=(2,), F=1, viaappend=True))
+        if kind in ('iterraise', 'wrongatom', 'unconvertible'):
+            splits.append(dict(kind=kind, numtype='int32', bo='big', atom=(2,), F=2, ctx=True))
         obs.append(Ob(f'FAIL-{kind}', 'h_fail', splits=splits, timeout=T,
                       regions=('empty_start_first_chunk_write',) if kind == 'limit' else (),
                       replay='replay_fail',
